@@ -228,6 +228,51 @@ fn pre_op(op: &Value, dir: &str, cas: &[CaServer], ctl: &str) -> Result<Value, S
 			}
 			Ok(json!({"op": name, "observed": observe_pair(&cp, &kp)}))
 		}
+		"install_account" => {
+			// an account file whose EC key has a public coordinate with a leading zero byte (deterministic scalar search)
+			use openssl::bn::{BigNum, BigNumContext};
+			use openssl::ec::{EcGroup, EcKey, EcPoint};
+			let name = op.get("name").and_then(|v| v.as_str()).unwrap_or("acc0");
+			let curve = op.get("key_type").and_then(|v| v.as_str()).unwrap_or("ecdsa-p256");
+			let coord = op.get("leading_zero").and_then(|v| v.as_str()).unwrap_or("x");
+			let (nid, size) = match curve {
+				"ecdsa-p384" => (openssl::nid::Nid::SECP384R1, 48usize),
+				"ecdsa-p521" => (openssl::nid::Nid::SECP521R1, 66),
+				_ => (openssl::nid::Nid::X9_62_PRIME256V1, 32),
+			};
+			let mut group = EcGroup::from_curve_name(nid).map_err(|e| format!("{e}"))?;
+			group.set_asn1_flag(openssl::ec::Asn1Flag::NAMED_CURVE);
+			let ctxbn = BigNumContext::new().map_err(|e| format!("{e}"))?;
+			let mut found = None;
+			for d in 1u32..200000 {
+				let dn = BigNum::from_u32(d).map_err(|e| format!("{e}"))?;
+				let mut pt = EcPoint::new(&group).map_err(|e| format!("{e}"))?;
+				pt.mul_generator(&group, &dn, &ctxbn).map_err(|e| format!("{e}"))?;
+				let ec = EcKey::from_private_components(&group, &dn, &pt).map_err(|e| format!("{e}"))?;
+				let pkey = PKey::from_ec_key(ec).map_err(|e| format!("{e}"))?;
+				let (x, y) = cu::ec_affine_padded(&pkey, size)?;
+				let hit = match coord {
+					"y" => y[0] == 0,
+					"none" => x[0] != 0 && y[0] != 0,
+					_ => x[0] == 0,
+				};
+				if hit {
+					found = Some((d, pkey));
+					break;
+				}
+			}
+			let (d, pkey) = found.ok_or("no scalar found")?;
+			let kp = acme_common::crypto::KeyPair::from_der(&pkey.private_key_to_der().map_err(|e| format!("{e}"))?).map_err(|e| e.message)?;
+			std::fs::create_dir_all(format!("{dir}/accounts")).map_err(|e| format!("{e}"))?;
+			let fm = super::grids::plain_fm(dir, name, "x");
+			let rt = tokio::runtime::Builder::new_current_thread().enable_all().build().unwrap();
+			let mut acc = rt
+				.block_on(crate::account::Account::load(&fm, name, &[], &Some(curve.to_string()), &None, &None))
+				.map_err(|e| e.message)?;
+			acc.current_key.key = kp;
+			rt.block_on(acc.save()).map_err(|e| e.message)?;
+			Ok(json!({"op": name, "scalar": d}))
+		}
 		"chmod" => {
 			use std::os::unix::fs::PermissionsExt;
 			let p = path_of("path");
